@@ -21,6 +21,7 @@ func init() {
 	add := func(prop string, vs ...variant) { selftests[prop] = append(selftests[prop], vs...) }
 
 	add("C02",
+		variant{Name: "gff-feature-len-inclusive", File: gff, Find: "func (g *Feature) Len() int   { return g.FeatEnd - g.FeatStart }", Replace: "func (g *Feature) Len() int   { return g.FeatEnd - g.FeatStart + 1 }", Rule: "intervalcoherent", Key: "io/featio/gff.Feature/End==Start+Len"},
 		variant{Name: "benign-span-check-in-text-coordinates", File: gff, Find: "\tgff := &Feature{\n\t\tSeqName:    string(fields[nameField]),", Replace: "\tif start > mustAtoi(fields, endField, r.line) {\n\t\treturn nil, &csv.ParseError{Line: r.line, Column: endField, Err: ErrBadFeature}\n\t}\n\tgff := &Feature{\n\t\tSeqName:    string(fields[nameField]),"},
 		variant{Name: "benign-span-check-in-feature-coordinates", File: gff, Find: "\tgff := &Feature{\n\t\tSeqName:    string(fields[nameField]),", Replace: "\tif feat.OneToZero(start) >= mustAtoi(fields, endField, r.line) {\n\t\treturn nil, &csv.ParseError{Line: r.line, Column: endField, Err: ErrBadFeature}\n\t}\n\tgff := &Feature{\n\t\tSeqName:    string(fields[nameField]),"},
 	)
@@ -74,6 +75,8 @@ func init() {
 		variant{Name: "benign-workers-counted-before-the-loop", File: proc, Find: "\tfor i := 0; i < threads; i++ {\n\t\tp.wg.Add(1)\n\t\tgo func() {", Replace: "\tp.wg.Add(threads)\n\tfor i := 0; i < threads; i++ {\n\t\tgo func() {"},
 	)
 	add("C20",
+		variant{Name: "exon-end-inclusive", File: gene, Find: "func (e Exon) End() int { return e.Offset + e.Length }", Replace: "func (e Exon) End() int { return e.Offset + e.Length - 1 }", Rule: "intervalcoherent", Key: "feat/gene.Exon/End==Start+Len"},
+		variant{Name: "benign-exon-len-from-ends", File: gene, Find: "func (e Exon) Len() int { return e.Length }", Replace: "func (e Exon) Len() int { return e.End() - e.Start() }"},
 		variant{Name: "benign-zero-start-accepting-branch", File: gene, Find: "\tif newExons.Start() != 0 {\n\t\treturn newExons, errors.New(\"no exon with a zero start\")\n\t}\n\treturn newExons, nil\n", Replace: "\tif newExons.Start() == 0 {\n\t\treturn newExons, nil\n\t}\n\treturn newExons, errors.New(\"no exon with a zero start\")\n"},
 	)
 }
